@@ -10,9 +10,19 @@ pub enum Tree {
     Konst(u16),
     Un(u16, Box<Tree>),
     Bin(u16, Box<Tree>, Box<Tree>),
+    /// explicit redundant parentheses around a subtree (semantically the identity)
+    Paren(Box<Tree>),
+    /// binary operator written in call form `op(a, b)` (semantically `Bin`)
+    Call(u16, Box<Tree>, Box<Tree>),
 }
 
 impl Tree {
+    pub fn paren(a: Tree) -> Tree {
+        Tree::Paren(Box::new(a))
+    }
+    pub fn call(k: u16, a: Tree, b: Tree) -> Tree {
+        Tree::Call(k, Box::new(a), Box::new(b))
+    }
     pub fn bin(k: u16, a: Tree, b: Tree) -> Tree {
         Tree::Bin(k, Box::new(a), Box::new(b))
     }
@@ -28,22 +38,22 @@ impl Tree {
     /// number of nodes
     pub fn size(&self) -> usize {
         match self {
-            Tree::Un(_, a) => 1 + a.size(),
-            Tree::Bin(_, a, b) => 1 + a.size() + b.size(),
+            Tree::Un(_, a) | Tree::Paren(a) => 1 + a.size(),
+            Tree::Bin(_, a, b) | Tree::Call(_, a, b) => 1 + a.size() + b.size(),
             _ => 1,
         }
     }
     pub fn n_leaves(&self) -> usize {
         match self {
-            Tree::Un(_, a) => a.n_leaves(),
-            Tree::Bin(_, a, b) => a.n_leaves() + b.n_leaves(),
+            Tree::Un(_, a) | Tree::Paren(a) => a.n_leaves(),
+            Tree::Bin(_, a, b) | Tree::Call(_, a, b) => a.n_leaves() + b.n_leaves(),
             _ => 1,
         }
     }
     pub fn n_bin(&self) -> usize {
         match self {
-            Tree::Un(_, a) => a.n_bin(),
-            Tree::Bin(_, a, b) => 1 + a.n_bin() + b.n_bin(),
+            Tree::Un(_, a) | Tree::Paren(a) => a.n_bin(),
+            Tree::Bin(_, a, b) | Tree::Call(_, a, b) => 1 + a.n_bin() + b.n_bin(),
             _ => 0,
         }
     }
@@ -58,8 +68,8 @@ impl Tree {
     fn collect_vars(&self, out: &mut Vec<String>) {
         match self {
             Tree::Var(n) => out.push(n.clone()),
-            Tree::Un(_, a) => a.collect_vars(out),
-            Tree::Bin(_, a, b) => {
+            Tree::Un(_, a) | Tree::Paren(a) => a.collect_vars(out),
+            Tree::Bin(_, a, b) | Tree::Call(_, a, b) => {
                 a.collect_vars(out);
                 b.collect_vars(out);
             }
@@ -74,7 +84,8 @@ impl Tree {
             Tree::Var(n) => Sym::var(n),
             Tree::Konst(k) => sym::mk(sym::Node::Konst(*k)),
             Tree::Un(k, a) => UN_FNS[*k as usize](a.to_sym()),
-            Tree::Bin(k, a, b) => {
+            Tree::Paren(a) => a.to_sym(),
+            Tree::Bin(k, a, b) | Tree::Call(k, a, b) => {
                 let x = a.to_sym();
                 let y = b.to_sym();
                 BIN_FNS[*k as usize](x, y)
@@ -88,7 +99,8 @@ impl Tree {
                 un.push(*k);
                 a.ops_used(un, bin);
             }
-            Tree::Bin(k, a, b) => {
+            Tree::Paren(a) => a.ops_used(un, bin),
+            Tree::Bin(k, a, b) | Tree::Call(k, a, b) => {
                 bin.push(*k);
                 a.ops_used(un, bin);
                 b.ops_used(un, bin);
@@ -99,8 +111,8 @@ impl Tree {
     pub fn has_var(&self) -> bool {
         match self {
             Tree::Var(_) => true,
-            Tree::Un(_, a) => a.has_var(),
-            Tree::Bin(_, a, b) => a.has_var() || b.has_var(),
+            Tree::Un(_, a) | Tree::Paren(a) => a.has_var(),
+            Tree::Bin(_, a, b) | Tree::Call(_, a, b) => a.has_var() || b.has_var(),
             _ => false,
         }
     }
@@ -112,6 +124,8 @@ impl Tree {
             Tree::Konst(k) => json!({"konst": k}),
             Tree::Un(k, a) => json!({"un": k, "a": a.to_json()}),
             Tree::Bin(k, a, b) => json!({"bin": k, "a": a.to_json(), "b": b.to_json()}),
+            Tree::Paren(a) => json!({"paren": a.to_json()}),
+            Tree::Call(k, a, b) => json!({"call": k, "a": a.to_json(), "b": b.to_json()}),
         }
     }
     pub fn from_json(v: &serde_json::Value) -> Tree {
@@ -121,6 +135,10 @@ impl Tree {
             Tree::Var(t.as_str().unwrap().to_string())
         } else if let Some(k) = v.get("konst") {
             Tree::Konst(k.as_u64().unwrap() as u16)
+        } else if let Some(a) = v.get("paren") {
+            Tree::paren(Tree::from_json(a))
+        } else if let Some(k) = v.get("call") {
+            Tree::call(k.as_u64().unwrap() as u16, Tree::from_json(&v["a"]), Tree::from_json(&v["b"]))
         } else if let Some(k) = v.get("un") {
             Tree::un(k.as_u64().unwrap() as u16, Tree::from_json(&v["a"]))
         } else {
@@ -133,7 +151,8 @@ impl Tree {
             Tree::Var(n) => n.clone(),
             Tree::Konst(k) => crate::table::repr_of(*k),
             Tree::Un(k, a) => format!("{}[{}]", crate::table::repr_of(*k), a.show()),
-            Tree::Bin(k, a, b) => format!("({} {} {})", a.show(), crate::table::repr_of(*k), b.show()),
+            Tree::Bin(k, a, b) | Tree::Call(k, a, b) => format!("({} {} {})", a.show(), crate::table::repr_of(*k), b.show()),
+            Tree::Paren(a) => a.show(),
         }
     }
 }
@@ -201,9 +220,22 @@ impl Renderer<'_> {
                 }
             }
             Tree::Konst(k) => (self.repr(*k).to_string(), None),
+            Tree::Paren(a) => {
+                let (inner, _) = self.go(a);
+                (if self.st.space { format!("( {inner} )") } else { format!("({inner})") }, None)
+            }
+            Tree::Call(k, l, r) => {
+                let repr = self.repr(*k);
+                self.bin_ctr += 1;
+                let (ls, _) = self.go(l);
+                let (rs, _) = self.go(r);
+                let sep = if self.st.space { " , " } else { ", " };
+                let (o, c) = if self.st.space { (" ( ", " )") } else { ("(", ")") };
+                (format!("{repr}{o}{ls}{sep}{rs}{c}"), None)
+            }
             Tree::Un(k, a) => {
                 let r = self.repr(*k);
-                let a_is_call = matches!(**a, Tree::Bin(kk, _, _) if is_alpha_repr(self.repr(kk)) && (self.st.call_mask >> self.bin_ctr) & 1 == 1);
+                let a_is_call = matches!(**a, Tree::Call(..)) || matches!(**a, Tree::Bin(kk, _, _) if is_alpha_repr(self.repr(kk)) && (self.st.call_mask >> self.bin_ctr) & 1 == 1);
                 let (inner, inner_top) = self.go(a);
                 let needs = inner_top.is_some();
                 let txt = if needs || (self.st.unary_paren && !(a_is_call)) || (a_is_call && !self.st.bare_unary_call) {
@@ -333,10 +365,16 @@ pub fn decorate(t: &Tree, pos: usize, chain: &[u16]) -> Tree {
         *ctr += 1;
         let inner = match t {
             Tree::Un(k, a) => Tree::un(*k, go(a, pos, chain, ctr)),
+            Tree::Paren(a) => Tree::paren(go(a, pos, chain, ctr)),
             Tree::Bin(k, a, b) => {
                 let x = go(a, pos, chain, ctr);
                 let y = go(b, pos, chain, ctr);
                 Tree::bin(*k, x, y)
+            }
+            Tree::Call(k, a, b) => {
+                let x = go(a, pos, chain, ctr);
+                let y = go(b, pos, chain, ctr);
+                Tree::call(*k, x, y)
             }
             other => other.clone(),
         };
